@@ -130,6 +130,10 @@ def boundary_schema():
                                            T("px", "composite", offset=4, members=[T("mantissa", "type", prim="int32"),
                                                                                    T("exponent", "type", prim="int8")]),
                                            T("qty", "type", prim="uint16")]))
+    # enum / set whose encodingType names a <type> (CME style)
+    s.add(T("uInt8", "type", prim="uint8"))
+    s.add(T("nset", "set", prim="uInt8", values=[V("a", "0"), V("h", "7")]))
+    s.add(T("nenum", "enum", prim="uInt8", values=[V("x", "1"), V("y", "254")]))
     s.add(T("e", "enum", prim="uint64", values=[V("top", str(U64 - 1), since=U64), V("zero", "0")]))
     s.add(T("st", "set", prim="uint64", values=[V("hi", "63", since=2 ** 33), V("lo", "0")]))
     for i, mid in enumerate((65535, 65536, 70000, 2 ** 32 - 1)):
@@ -140,6 +144,8 @@ def boundary_schema():
         if i == 0:
             m.fields.append(F("s", 1, "st"))
             m.fields.append(F("q", 2, "quote"))
+            m.fields.append(F("ns", 3, "nset"))
+            m.fields.append(F("ne", 4, "nenum"))
         gr = G("grp", 65535, "dim", since=2 ** 35, block_length=(2 ** 32 + 2) if i == 2 else None)
         gr.fields.append(F("x", 65535, "uint8", since=U64))
         gr.data.append(D("dd", 65535, "vd", since=2 ** 63))
